@@ -61,6 +61,8 @@ func main() {
 			genCli(g, n, os.Stdout)
 		case "c03":
 			genC03(g, n, os.Stdout)
+		case "ms":
+			genMs(g, n, os.Stdout)
 		case "hist":
 			genHist(g, n, os.Stdout)
 		case "fuzz":
